@@ -30,7 +30,7 @@ pub fn meta(tier: Tier) -> CheckMeta {
                hash(program, history, config); non-trivial = history with >= 1 restart that is followed by both \
                a served-from-store query and a justified re-execution.",
         assumptions: vec!["same hasher seed and executors after reopen (as the property requires)".into()],
-        parts: vec![PartSpec { name: "native", nshards: 16, budget_s: tier.pick(300, 2400), env: vec![], program: None }],
+        parts: vec![PartSpec { name: "native", nshards: 16, budget_s: tier.pick(300, 2400), env: vec![], program: None, prepare: None, sanitizer: None }],
         must_be_nonzero: vec![("restarts", "no restart executed"), ("queries_served_after_restart_without_execution", "no query was served from the store after a restart")],
     }
 }
@@ -80,7 +80,7 @@ fn run_pair<B: Backend>(mk: &dyn Fn() -> B, case: &Case, cfg: &CaseCfg) -> Resul
 
 pub fn worker(ctx: &WorkerCtx) -> Report {
     let mut rep = Report::default();
-    let n: u64 = if ctx.part == "miri" { 1 } else { ctx.tier.pick(12, 200) };
+    let n: u64 = if ctx.part == "miri" { 1 } else { ctx.pick(150, 2500) };
     let mut seen = std::collections::HashSet::new();
     for k in 0..n {
         let idx = k * ctx.nshards as u64 + ctx.shard as u64;
